@@ -365,8 +365,9 @@ def run(tier, seed, replay):
                 zd = norm_cwd(strip_abs(zd))
                 corr_steps += 1
                 special = any(int(fz[2], 8) & 0o7000 for fz in parse(pre)[1].values())
-                if (zo == 'err Other' and lean_cls == 'uncovered') or special:
-                    model_alive = False           # not modelled (entry / entries / handles / copy through links; setuid/setgid/sticky inheritance)
+                through_link = t0[0] in ('copy', 'copy_b') and classify(req, so, mo, pre, mem_pre) == 'copy_dst_link'
+                if (zo == 'err Other' and lean_cls == 'uncovered') or special or through_link:
+                    model_alive = False           # not modelled: entry / entries / handles; a copy that creates entries THROUGH a link (the kernel model does not follow intermediate links); setuid/setgid/sticky inheritance
                 elif not (same_result(so, zo) and sd == zd):
                     if t0[0] in ('copy', 'copy_b') and vlib._copy_into_itself(req, 'x ## cwd ' + parse(pre)[0]):
                         model_alive = False
